@@ -191,7 +191,13 @@ func TestVerifC02Gating(t *testing.T) {
 				wk := d.Format("2006-01-02")
 				if weeks[wk] == nil {
 					weeks[wk] = &c02Week{end: d, built: true, uploadable: true}
-					os.WriteFile(filepath.Join(dir, "local", wk+".json"), []byte(fmt.Sprintf("{\"Week\":%q,\"X\":0.5,\"Config\":\"v0\"}", wk)), 0666)
+					// the uploader takes any *<date>.json that does not start with "local." for a ready report
+					// and names its week by the date at the end of the name
+					prefix := rapid.SampledFrom([]string{"", "", "", "gopls-", "x", "2001-01-01."}).Draw(t, "leftoverPrefix")
+					os.WriteFile(filepath.Join(dir, "local", prefix+wk+".json"), []byte(fmt.Sprintf("{\"Week\":%q,\"X\":0.5,\"Config\":\"v0\"}", wk)), 0666)
+					if prefix != "" {
+						vstats.Label("leftoverWithPrefix")
+					}
 					boundary = true
 				}
 			}
